@@ -1,0 +1,126 @@
+//go:build verif
+
+package openapi3
+
+// Contracts for InternalizeRefs (C16). Comment-only; read by /verif/engine (govc).
+//
+// One contract per component kind, all of the same shape: a reference that is external (or sits
+// below something external) is replaced by a reference into this document's components section,
+// under the name the resolver gives it, and that component holds the referenced content; a
+// reference that is already internal is left alone. The resolver is abstract (refName).
+
+//@ spec extRef(ref string, parentIsExternal bool) bool := ref != "" && (!hasPrefix(ref, "#/components/") || parentIsExternal)
+//@ func isExternalRef
+//@   modifies nothing
+//@   ensures result == extRef(ref, parentIsExternal)
+//@   tag C16
+//@ spec refName(doc *T, r ref) string
+//@ fnfield RefNameResolver (doc, ref)
+//@   modifies nothing
+//@   defines result == refName(doc, ptr(ref))
+
+
+//@ func (*T).addSchemaToSpec
+//@   requires doc != nil
+//@   modifies *
+//@   ensures [internal-left-alone] s == nil || !extRef(old(s.Ref), parentIsExternal) ==> !result && (s != nil ==> s.Ref == old(s.Ref))
+//@   ensures [becomes-internal] s != nil && extRef(old(s.Ref), parentIsExternal) && !(old(doc.Components) != nil && old(has(doc.Components.Schemas, refName(doc, ptr(s)))) && old(doc.Components.Schemas[refName(doc, ptr(s))]) == s) ==> result && s.Ref == concat("#/components/schemas/", refName(doc, ptr(s))) && doc.Components != nil && has(doc.Components.Schemas, refName(doc, ptr(s)))
+//@   ensures [own-component-dereferenced] s != nil && extRef(old(s.Ref), parentIsExternal) && (old(doc.Components) != nil && old(has(doc.Components.Schemas, refName(doc, ptr(s)))) && old(doc.Components.Schemas[refName(doc, ptr(s))]) == s) ==> result && s.Ref == ""
+//@   ensures [component-holds-the-content] s != nil && extRef(old(s.Ref), parentIsExternal) && !(old(doc.Components) != nil && old(has(doc.Components.Schemas, refName(doc, ptr(s))))) ==> doc.Components.Schemas[refName(doc, ptr(s))] != nil && doc.Components.Schemas[refName(doc, ptr(s))].Value == old(s.Value) && doc.Components.Schemas[refName(doc, ptr(s))].Ref == ""
+//@   ensures [no-self-reference] s != nil && extRef(old(s.Ref), parentIsExternal) ==> doc.Components.Schemas[refName(doc, ptr(s))] != s || s.Ref == ""
+//@   option safety-tags C20
+//@   tag C16
+
+//@ func (*T).addParameterToSpec
+//@   requires doc != nil
+//@   modifies *
+//@   ensures [internal-left-alone] p == nil || !extRef(old(p.Ref), parentIsExternal) ==> !result && (p != nil ==> p.Ref == old(p.Ref))
+//@   ensures [becomes-internal] p != nil && extRef(old(p.Ref), parentIsExternal) && !(old(doc.Components) != nil && old(has(doc.Components.Parameters, refName(doc, ptr(p)))) && old(doc.Components.Parameters[refName(doc, ptr(p))]) == p) ==> result && p.Ref == concat("#/components/parameters/", refName(doc, ptr(p))) && doc.Components != nil && has(doc.Components.Parameters, refName(doc, ptr(p)))
+//@   ensures [own-component-dereferenced] p != nil && extRef(old(p.Ref), parentIsExternal) && (old(doc.Components) != nil && old(has(doc.Components.Parameters, refName(doc, ptr(p)))) && old(doc.Components.Parameters[refName(doc, ptr(p))]) == p) ==> result && p.Ref == ""
+//@   ensures [component-holds-the-content] p != nil && extRef(old(p.Ref), parentIsExternal) && !(old(doc.Components) != nil && old(has(doc.Components.Parameters, refName(doc, ptr(p))))) ==> doc.Components.Parameters[refName(doc, ptr(p))] != nil && doc.Components.Parameters[refName(doc, ptr(p))].Value == old(p.Value) && doc.Components.Parameters[refName(doc, ptr(p))].Ref == ""
+//@   ensures [no-self-reference] p != nil && extRef(old(p.Ref), parentIsExternal) ==> doc.Components.Parameters[refName(doc, ptr(p))] != p || p.Ref == ""
+//@   option safety-tags C20
+//@   tag C16
+
+//@ func (*T).addHeaderToSpec
+//@   requires doc != nil
+//@   modifies *
+//@   ensures [internal-left-alone] h == nil || !extRef(old(h.Ref), parentIsExternal) ==> !result && (h != nil ==> h.Ref == old(h.Ref))
+//@   ensures [becomes-internal] h != nil && extRef(old(h.Ref), parentIsExternal) && !(old(doc.Components) != nil && old(has(doc.Components.Headers, refName(doc, ptr(h)))) && old(doc.Components.Headers[refName(doc, ptr(h))]) == h) ==> result && h.Ref == concat("#/components/headers/", refName(doc, ptr(h))) && doc.Components != nil && has(doc.Components.Headers, refName(doc, ptr(h)))
+//@   ensures [own-component-dereferenced] h != nil && extRef(old(h.Ref), parentIsExternal) && (old(doc.Components) != nil && old(has(doc.Components.Headers, refName(doc, ptr(h)))) && old(doc.Components.Headers[refName(doc, ptr(h))]) == h) ==> result && h.Ref == ""
+//@   ensures [component-holds-the-content] h != nil && extRef(old(h.Ref), parentIsExternal) && !(old(doc.Components) != nil && old(has(doc.Components.Headers, refName(doc, ptr(h))))) ==> doc.Components.Headers[refName(doc, ptr(h))] != nil && doc.Components.Headers[refName(doc, ptr(h))].Value == old(h.Value) && doc.Components.Headers[refName(doc, ptr(h))].Ref == ""
+//@   ensures [no-self-reference] h != nil && extRef(old(h.Ref), parentIsExternal) ==> doc.Components.Headers[refName(doc, ptr(h))] != h || h.Ref == ""
+//@   option safety-tags C20
+//@   tag C16
+
+//@ func (*T).addRequestBodyToSpec
+//@   requires doc != nil
+//@   modifies *
+//@   ensures [internal-left-alone] r == nil || !extRef(old(r.Ref), parentIsExternal) ==> !result && (r != nil ==> r.Ref == old(r.Ref))
+//@   ensures [becomes-internal] r != nil && extRef(old(r.Ref), parentIsExternal) && !(old(doc.Components) != nil && old(has(doc.Components.RequestBodies, refName(doc, ptr(r)))) && old(doc.Components.RequestBodies[refName(doc, ptr(r))]) == r) ==> result && r.Ref == concat("#/components/requestBodies/", refName(doc, ptr(r))) && doc.Components != nil && has(doc.Components.RequestBodies, refName(doc, ptr(r)))
+//@   ensures [own-component-dereferenced] r != nil && extRef(old(r.Ref), parentIsExternal) && (old(doc.Components) != nil && old(has(doc.Components.RequestBodies, refName(doc, ptr(r)))) && old(doc.Components.RequestBodies[refName(doc, ptr(r))]) == r) ==> result && r.Ref == ""
+//@   ensures [component-holds-the-content] r != nil && extRef(old(r.Ref), parentIsExternal) && !(old(doc.Components) != nil && old(has(doc.Components.RequestBodies, refName(doc, ptr(r))))) ==> doc.Components.RequestBodies[refName(doc, ptr(r))] != nil && doc.Components.RequestBodies[refName(doc, ptr(r))].Value == old(r.Value) && doc.Components.RequestBodies[refName(doc, ptr(r))].Ref == ""
+//@   ensures [no-self-reference] r != nil && extRef(old(r.Ref), parentIsExternal) ==> doc.Components.RequestBodies[refName(doc, ptr(r))] != r || r.Ref == ""
+//@   option safety-tags C20
+//@   tag C16
+
+//@ func (*T).addResponseToSpec
+//@   requires doc != nil
+//@   modifies *
+//@   ensures [internal-left-alone] r == nil || !extRef(old(r.Ref), parentIsExternal) ==> !result && (r != nil ==> r.Ref == old(r.Ref))
+//@   ensures [becomes-internal] r != nil && extRef(old(r.Ref), parentIsExternal) && !(old(doc.Components) != nil && old(has(doc.Components.Responses, refName(doc, ptr(r)))) && old(doc.Components.Responses[refName(doc, ptr(r))]) == r) ==> result && r.Ref == concat("#/components/responses/", refName(doc, ptr(r))) && doc.Components != nil && has(doc.Components.Responses, refName(doc, ptr(r)))
+//@   ensures [own-component-dereferenced] r != nil && extRef(old(r.Ref), parentIsExternal) && (old(doc.Components) != nil && old(has(doc.Components.Responses, refName(doc, ptr(r)))) && old(doc.Components.Responses[refName(doc, ptr(r))]) == r) ==> result && r.Ref == ""
+//@   ensures [component-holds-the-content] r != nil && extRef(old(r.Ref), parentIsExternal) && !(old(doc.Components) != nil && old(has(doc.Components.Responses, refName(doc, ptr(r))))) ==> doc.Components.Responses[refName(doc, ptr(r))] != nil && doc.Components.Responses[refName(doc, ptr(r))].Value == old(r.Value) && doc.Components.Responses[refName(doc, ptr(r))].Ref == ""
+//@   ensures [no-self-reference] r != nil && extRef(old(r.Ref), parentIsExternal) ==> doc.Components.Responses[refName(doc, ptr(r))] != r || r.Ref == ""
+//@   option safety-tags C20
+//@   tag C16
+
+//@ func (*T).addSecuritySchemeToSpec
+//@   requires doc != nil
+//@   modifies *
+//@   ensures [internal-left-alone] ss == nil || !extRef(old(ss.Ref), parentIsExternal) ==> (ss != nil ==> ss.Ref == old(ss.Ref))
+//@   ensures [becomes-internal] ss != nil && extRef(old(ss.Ref), parentIsExternal) && !(old(doc.Components) != nil && old(has(doc.Components.SecuritySchemes, refName(doc, ptr(ss)))) && old(doc.Components.SecuritySchemes[refName(doc, ptr(ss))]) == ss) ==> ss.Ref == concat("#/components/securitySchemes/", refName(doc, ptr(ss))) && doc.Components != nil && has(doc.Components.SecuritySchemes, refName(doc, ptr(ss)))
+//@   ensures [own-component-dereferenced] ss != nil && extRef(old(ss.Ref), parentIsExternal) && (old(doc.Components) != nil && old(has(doc.Components.SecuritySchemes, refName(doc, ptr(ss)))) && old(doc.Components.SecuritySchemes[refName(doc, ptr(ss))]) == ss) ==> ss.Ref == ""
+//@   ensures [component-holds-the-content] ss != nil && extRef(old(ss.Ref), parentIsExternal) && !(old(doc.Components) != nil && old(has(doc.Components.SecuritySchemes, refName(doc, ptr(ss))))) ==> doc.Components.SecuritySchemes[refName(doc, ptr(ss))] != nil && doc.Components.SecuritySchemes[refName(doc, ptr(ss))].Value == old(ss.Value) && doc.Components.SecuritySchemes[refName(doc, ptr(ss))].Ref == ""
+//@   ensures [no-self-reference] ss != nil && extRef(old(ss.Ref), parentIsExternal) ==> doc.Components.SecuritySchemes[refName(doc, ptr(ss))] != ss || ss.Ref == ""
+//@   option safety-tags C20
+//@   tag C16
+
+//@ func (*T).addExampleToSpec
+//@   requires doc != nil
+//@   modifies *
+//@   ensures [internal-left-alone] e == nil || !extRef(old(e.Ref), parentIsExternal) ==> (e != nil ==> e.Ref == old(e.Ref))
+//@   ensures [becomes-internal] e != nil && extRef(old(e.Ref), parentIsExternal) && !(old(doc.Components) != nil && old(has(doc.Components.Examples, refName(doc, ptr(e)))) && old(doc.Components.Examples[refName(doc, ptr(e))]) == e) ==> e.Ref == concat("#/components/examples/", refName(doc, ptr(e))) && doc.Components != nil && has(doc.Components.Examples, refName(doc, ptr(e)))
+//@   ensures [own-component-dereferenced] e != nil && extRef(old(e.Ref), parentIsExternal) && (old(doc.Components) != nil && old(has(doc.Components.Examples, refName(doc, ptr(e)))) && old(doc.Components.Examples[refName(doc, ptr(e))]) == e) ==> e.Ref == ""
+//@   ensures [component-holds-the-content] e != nil && extRef(old(e.Ref), parentIsExternal) && !(old(doc.Components) != nil && old(has(doc.Components.Examples, refName(doc, ptr(e))))) ==> doc.Components.Examples[refName(doc, ptr(e))] != nil && doc.Components.Examples[refName(doc, ptr(e))].Value == old(e.Value) && doc.Components.Examples[refName(doc, ptr(e))].Ref == ""
+//@   ensures [no-self-reference] e != nil && extRef(old(e.Ref), parentIsExternal) ==> doc.Components.Examples[refName(doc, ptr(e))] != e || e.Ref == ""
+//@   option safety-tags C20
+//@   tag C16
+
+//@ func (*T).addLinkToSpec
+//@   requires doc != nil
+//@   modifies *
+//@   ensures [internal-left-alone] l == nil || !extRef(old(l.Ref), parentIsExternal) ==> (l != nil ==> l.Ref == old(l.Ref))
+//@   ensures [becomes-internal] l != nil && extRef(old(l.Ref), parentIsExternal) && !(old(doc.Components) != nil && old(has(doc.Components.Links, refName(doc, ptr(l)))) && old(doc.Components.Links[refName(doc, ptr(l))]) == l) ==> l.Ref == concat("#/components/links/", refName(doc, ptr(l))) && doc.Components != nil && has(doc.Components.Links, refName(doc, ptr(l)))
+//@   ensures [own-component-dereferenced] l != nil && extRef(old(l.Ref), parentIsExternal) && (old(doc.Components) != nil && old(has(doc.Components.Links, refName(doc, ptr(l)))) && old(doc.Components.Links[refName(doc, ptr(l))]) == l) ==> l.Ref == ""
+//@   ensures [component-holds-the-content] l != nil && extRef(old(l.Ref), parentIsExternal) && !(old(doc.Components) != nil && old(has(doc.Components.Links, refName(doc, ptr(l))))) ==> doc.Components.Links[refName(doc, ptr(l))] != nil && doc.Components.Links[refName(doc, ptr(l))].Value == old(l.Value) && doc.Components.Links[refName(doc, ptr(l))].Ref == ""
+//@   ensures [no-self-reference] l != nil && extRef(old(l.Ref), parentIsExternal) ==> doc.Components.Links[refName(doc, ptr(l))] != l || l.Ref == ""
+//@   option safety-tags C20
+//@   tag C16
+
+//@ func (*T).addCallbackToSpec
+//@   requires doc != nil
+//@   modifies *
+//@   ensures [internal-left-alone] c == nil || !extRef(old(c.Ref), parentIsExternal) ==> !result && (c != nil ==> c.Ref == old(c.Ref))
+//@   ensures [becomes-internal] c != nil && extRef(old(c.Ref), parentIsExternal) && !false ==> result && c.Ref == concat("#/components/callbacks/", refName(doc, ptr(c))) && doc.Components != nil && has(doc.Components.Callbacks, refName(doc, ptr(c)))
+//@   ensures [own-component-dereferenced] c != nil && extRef(old(c.Ref), parentIsExternal) && false ==> result && c.Ref == ""
+//@   ensures [component-holds-the-content] c != nil && extRef(old(c.Ref), parentIsExternal) && !false ==> doc.Components.Callbacks[refName(doc, ptr(c))] != nil && doc.Components.Callbacks[refName(doc, ptr(c))].Value == old(c.Value) && doc.Components.Callbacks[refName(doc, ptr(c))].Ref == ""
+//@   ensures [no-self-reference] c != nil && extRef(old(c.Ref), parentIsExternal) ==> doc.Components.Callbacks[refName(doc, ptr(c))] != c || c.Ref == ""
+//@   option safety-tags C20
+//@   tag C16
+
+//@ func (*Schema).NewRef
+//@   modifies nothing
+//@   fresh
+//@   ensures result != nil && result.Value == schema && result.Ref == ""
+//@   tag C16
